@@ -64,9 +64,28 @@ def gen(rng, tier, quarantine=()):
                     "sels": [{"levels": [lv], "focus": {"var": focus, "as": "foc" if focus[0] == "#" else focus}}]})
     pending = [f"p{i}" for i in range(nprobes)]
     live = []
+    refused = None
+    if "no-uninstrumentable" not in quarantine and rng.random() < 0.25:
+        # an activation naming a function ptera cannot instrument (by name or by reference) is
+        # refused; its reference, and everybody else's, keeps resolving afterwards
+        lv = {"fn": "coro", "caps": [], "sibs": []}
+        if rng.random() < 0.5:
+            lv["ref"] = True
+        else:
+            lv["recv_path"] = "coro"
+        sels = [{"levels": [lv], "focus": {"var": "x", "as": "x"}}]
+        if rng.random() < 0.4:
+            q0 = rng.choice(universe)
+            sels.insert(0, {"levels": [{"fn": q0, "caps": [], "sibs": [], "recv_path": FN[q0][2]}],
+                            "focus": {"var": FN[q0][1], "as": FN[q0][1]}})
+        ops.append({"op": "mk", "id": "bad", "sels": sels, "nojudge": True, "expect_refusal": True})
+        refused = "bad"
     nsteps = rng.randint(4, 12) if tier == "quick" else rng.randint(6, 24)
     for _ in range(nsteps):
         r = rng.random()
+        if refused and rng.random() < 0.3:
+            ops.append({"op": "enter", "id": refused})
+            refused = None
         if r < 0.3 and pending:
             pid = pending.pop(0)
             ops.append({"op": "enter", "id": pid})
